@@ -209,7 +209,16 @@ struct Ctx {
 	bool has_path = false;
 };
 
+// storage the "application" owns for CFG_SIMPLE_* options (the library stores values through these pointers)
+struct SimpleVar {
+	long n = 0;
+	double f = 0;
+	cfg_bool_t b = cfg_false;
+	char *s = nullptr;
+};
+
 struct Exec {
+	std::vector<SimpleVar *> simple_vars;
 	const json *plan = nullptr;
 	ExecOpts opts;
 	RunResult res;
@@ -424,6 +433,17 @@ static cfg_opt_t *build_opts(const json &opts, Built &b)
 		}
 		if (o.contains("dp") && !o["dp"].is_null())
 			c.def.parsed = dupstr(bytes_of(o["dp"]), b);
+		if (o.value("simple", 0) && !(c.flags & CFGF_LIST) && (c.type == CFGT_INT || c.type == CFGT_FLOAT || c.type == CFGT_BOOL || c.type == CFGT_STR)) {
+			SimpleVar *sv = new SimpleVar();
+			E->simple_vars.push_back(sv);
+			sv->n = o.contains("d") && o["d"].is_number() ? o["d"].get<long>() : 0;
+			switch (c.type) {
+			case CFGT_INT: c.simple_value.number = &sv->n; break;
+			case CFGT_FLOAT: c.simple_value.fpnumber = &sv->f; break;
+			case CFGT_BOOL: c.simple_value.boolean = &sv->b; break;
+			default: c.simple_value.string = &sv->s; break;
+			}
+		}
 		if (o.contains("cm") && !o["cm"].is_null())
 			c.comment = dupstr(bytes_of(o["cm"]), b); // an annotation given in the declaration itself
 		if (o.contains("sub"))
@@ -516,6 +536,8 @@ static void dump_cfg(cfg_t *cfg, std::string &out, int depth)
 		const char *cm = cfg_opt_getcomment(o);
 		if (cm)
 			out += " #\"" + esc(cm) + "\"";
+		if (o->simple_value.ptr && o->type != CFGT_SEC)
+			out += " simple=" + value_repr(o, 0); // the value lives in the application's variable
 		if (o->type == CFGT_SEC) {
 			out += "\n";
 			for (unsigned k = 0; k < n; k++) {
@@ -1108,6 +1130,12 @@ RunResult execute(const json &plan, const ExecOpts &opts)
 			}
 		}
 	}
+	// the application releases the strings the library stored in its CFG_SIMPLE_STR variables
+	for (SimpleVar *sv : ex.simple_vars)
+		if (sv->s && !ex.res.died) {
+			sim_free(sv->s, "application", 0);
+			sv->s = nullptr;
+		}
 	if (!ex.res.died) {
 		std::map<std::string, int> leaks;
 		for (auto &kv : W.live) {
@@ -1148,6 +1176,8 @@ RunResult execute(const json &plan, const ExecOpts &opts)
 		release_built(b, false);
 		delete b;
 	}
+	for (SimpleVar *sv : ex.simple_vars)
+		delete sv;
 	W.free_all_blocks();
 	image_restore_all();
 	W.poll_stdout();
